@@ -189,8 +189,8 @@ func genHist(r *lib.Rng) *histIn {
 }
 
 // genPather: the paths of every round are what a scion.Pather returns, which is refreshed between rounds from
-// a scripted daemon; dup: the server's IA is listed more than once among the Pather's destinations (two servers
-// or peers in the same AS)
+// a scripted daemon; dup: an IA is listed more than once among the Pather's destinations (two servers or peers
+// in the same AS)
 func genPather(r *lib.Rng, dup bool) *histIn {
 	h := &histIn{pather: true}
 	nc := genClients(r, h, true)
@@ -203,9 +203,14 @@ func genPather(r *lib.Rng, dup bool) *histIn {
 	h.dstIAs = append(h.dstIAs, perm[:nia]...)
 	h.q = h.dstIAs[r.Intn(nia)]
 	if dup {
+		// the server's IA or another destination is listed again (once or twice), anywhere in the list
+		v := h.q
+		if r.Intn(2) == 0 {
+			v = h.dstIAs[r.Intn(nia)]
+		}
 		for i := 1 + r.Intn(2); i > 0; i-- {
 			k := r.Intn(len(h.dstIAs) + 1)
-			h.dstIAs = append(h.dstIAs[:k], append([]int64{h.q}, h.dstIAs[k:]...)...)
+			h.dstIAs = append(h.dstIAs[:k], append([]int64{v}, h.dstIAs[k:]...)...)
 		}
 	} else if r.Intn(12) == 0 {
 		h.q = perm[4] // the server's IA is not among the destinations (nia <= 4)
